@@ -413,13 +413,14 @@ Coincidences == \A i \in Rows : LET h == tab[i].h c == tab[i].cor m == pm.m IN
 SeqsOf(S, lo, hi) == UNION {[1..n -> S] : n \in lo..hi}
 Take(s, n) == IF Len(s) <= n THEN s ELSE SubSeq(s, 1, n)
 
-IntEffect(d, es0, I) ==
+IntEffectQ(d, an0, I) ==      \* an0: the ratios before the assignment (rationals)
   LET t    == Take(I, d)
       full == [i \in 1..d |-> IF i <= Len(t) THEN t[i] ELSE t[Len(t)]]
-      an   == IF Len(t) = 1 THEN [i \in 1..d - 1 |-> Pow2(es0[i])]
+      an   == IF Len(t) = 1 THEN an0
               ELSE [i \in 1..d - 1 |-> Div(full[i + 1], full[1])]
   IN [int |-> full[1], anis |-> an, lenk |-> full[1],
       vec |-> [i \in 1..d |-> IF i = 1 THEN full[1] ELSE Mul(full[1], an[i - 1])]]
+IntEffect(d, es0, I) == IntEffectQ(d, [i \in 1..d - 1 |-> Pow2(es0[i])], I)
 
 InitInt ==
   /\ part = "intscale"
@@ -440,4 +441,125 @@ IntSound ==
   (* a scalar (or a one-element list, or any list in 1-D) keeps the ratios *)
   /\ (Len(isc.I) = 1 \/ isc.dim = 1 => \A i \in 1..isc.dim - 1 : isc.anis[i] = Pow2(isc.es0[i]))
   /\ \A i \in 1..isc.dim - 1 : Less(Zero, isc.anis[i])
+
+-----------------------------------------------------------------------------
+(*      E.  the integral scale along a history of assignments              *)
+-----------------------------------------------------------------------------
+(* One model object, a sequence of public assignments.  The reported integral
+   scale must be the one of the *current* parameters after every step:
+       integral_scale = kappa(opt) * len_scale / rescale
+   kappa(opt) = integral scale of the unit model (len_scale = rescale = 1) with
+   the current shape parameter.  kappa is transcendental, so the length scale
+   is kept symbolically as  len.q / kappa(len.o)  (len.o = 0: kappa := 1; it is
+   set by prescribing the integral scale while the shape index was len.o).
+   Hence  integral_scale = HIntQ * kappa(opt) / kappa(len.o),  and it is the
+   exact rational HIntQ whenever len.o = opt.                                *)
+CONSTANTS HistDims, HistLens, HistRes, HistOpts, HistInts, HistMaxSteps
+
+HOp(name, v) == [name |-> name, v |-> v]
+Ones(n) == [i \in 1..n |-> One]
+FitAnis(d, s) == LET t == Take(s, d - 1) IN Ones(d - 1 - Len(t)) \o t   \* cut right, pad left with 1
+InitAnis(d) == [i \in 1..d - 1 |-> IF i = 1 THEN <<2, 1>> ELSE <<1, 2>>]
+
+InitHist ==
+  /\ part = "inthist"
+  /\ \E d \in HistDims, l \in HistLens, r \in HistRes :
+       isc = [dim |-> d, len |-> [q |-> l, o |-> 0], res |-> r, anis |-> InitAnis(d), opt |-> 1,
+              n |-> 0, op |-> HOp("Init", <<>>)]
+  /\ D = None /\ inst = None /\ pc = None /\ abstract = None /\ ev = None
+  /\ vc = None /\ pm = None /\ tab = None
+
+HStep(new) == /\ isc.n < HistMaxSteps
+              /\ isc' = [new EXCEPT !.n = isc.n + 1]
+              /\ UNCHANGED <<part, D, inst, pc, abstract, ev, vc, pm, tab>>
+
+HSetLen(l) == l # isc.len.q /\ HStep([isc EXCEPT !.len = [q |-> l, o |-> 0], !.op = HOp("SetLen", <<l>>)])
+HSetRes(r) == r # isc.res /\ HStep([isc EXCEPT !.res = r, !.op = HOp("SetRescale", <<r>>)])
+HSetOpt(o) == o # isc.opt /\ HStep([isc EXCEPT !.opt = o, !.op = HOp("SetOpt", <<QI(o)>>)])
+HSetDim(d) == d # isc.dim /\ HStep([isc EXCEPT !.dim = d, !.anis = FitAnis(d, isc.anis),
+                                               !.op = HOp("SetDim", <<QI(d)>>)])
+(* prescribing the integral scale: len_scale = I * rescale / kappa(opt) *)
+HSetInt(I) == LET e == IntEffectQ(isc.dim, isc.anis, I)
+              IN HStep([isc EXCEPT !.len = [q |-> Mul(e.int, isc.res), o |-> isc.opt], !.anis = e.anis,
+                                   !.op = HOp("SetInt", I)])
+
+NextHist ==
+  \/ \E l \in HistLens : HSetLen(l)
+  \/ \E r \in HistRes : HSetRes(r)
+  \/ \E o \in HistOpts : HSetOpt(o)
+  \/ \E d \in HistDims : HSetDim(d)
+  \/ \E I \in HistInts : HSetInt(I)
+
+HIntQ(s) == Div(s.len.q, s.res)
+HVec(s)  == [i \in 1..s.dim |-> IF i = 1 THEN HIntQ(s) ELSE Mul(HIntQ(s), s.anis[i - 1])]
+
+HistTypeOK == /\ Len(isc.anis) = isc.dim - 1
+              /\ IsQ(isc.len.q) /\ Less(Zero, isc.len.q) /\ Less(Zero, isc.res)
+              /\ \A i \in 1..isc.dim - 1 : Less(Zero, isc.anis[i])
+(* right after prescribing I the integral scale is I, exactly, in every direction named *)
+HistPrescribed == isc.op.name = "SetInt" =>
+  /\ isc.len.o = isc.opt /\ HIntQ(isc) = isc.op.v[1]
+  /\ (Len(isc.op.v) >= 2 /\ isc.dim >= 2 =>
+        \A i \in 1..isc.dim : HVec(isc)[i] = (IF i <= Len(isc.op.v) THEN isc.op.v[i] ELSE isc.op.v[Len(isc.op.v)]))
+(* every other assignment changes only what it names; the integral scale follows
+   len_scale / rescale (action property) *)
+HistCoupling == [][
+  /\ (isc'.op.name = "SetRescale" => isc'.len = isc.len /\ isc'.anis = isc.anis /\ isc'.opt = isc.opt
+                                     /\ Mul(HIntQ(isc'), isc'.res) = Mul(HIntQ(isc), isc.res))
+  /\ (isc'.op.name = "SetLen" => isc'.res = isc.res /\ isc'.anis = isc.anis /\ isc'.opt = isc.opt)
+  /\ (isc'.op.name = "SetOpt" => isc'.len = isc.len /\ isc'.res = isc.res /\ isc'.anis = isc.anis)
+  /\ (isc'.op.name = "SetDim" => isc'.len = isc.len /\ isc'.res = isc.res /\ isc'.opt = isc.opt
+                                 /\ HIntQ(isc') = HIntQ(isc))
+  /\ (isc'.op.name = "SetInt" => isc'.res = isc.res /\ isc'.opt = isc.opt)
+  ]_isc
+
+-----------------------------------------------------------------------------
+(*      F.  truncated power law: the documented superposition              *)
+-----------------------------------------------------------------------------
+(* TPLGaussian / TPLExponential / TPLStable: the model with lower truncation
+   len_low = a, len_scale = L, rescale = s, Hurst coefficient H is the
+   superposition of modes on the scales between
+        ll = a / s   and   lu = (a + L) / s
+   with the positive weight lambda^(2H-1).  With rho0(r; l) the correlation of
+   the model without lower truncation and (rescaled) upper scale l, the
+   documented closed form is
+     rho(r) = wup * rho0(r; lu) - wlow * rho0(r; ll),
+     wup = lu^2H / (lu^2H - ll^2H),  wlow = ll^2H / (lu^2H - ll^2H),
+   rho0(r; l) = cor(r / l), the variance factor is (lu^2H - ll^2H) / (2H), and,
+   being an average of the modes exp(-(r/lambda)^alpha), ll <= lambda <= lu,
+     mode(r; ll) <= rho(r) <= mode(r; lu)         (mode(r; 0) = 0 for r > 0).
+   The weights are exact rationals on the lattice used (2H in {1, 1/2, 3/2},
+   scales whose square roots are rational where needed).                    *)
+CONSTANTS TplLow, TplLen, TplRes, TplH2
+
+QSquare(x) == IsSquare(x[1]) /\ IsSquare(x[2])
+QSqrt(x)   == <<ExactSqrt(x[1]), ExactSqrt(x[2])>>
+(* x^(p/2) for h2 = <<p, 2>> or x^p for h2 = <<p, 1>> *)
+PowH2Defined(x, h2) == h2[2] = 1 \/ QSquare(x)
+PowH2(x, h2) == IF h2[2] = 1 THEN Pow(x, h2[1]) ELSE Pow(QSqrt(x), h2[1])
+
+TplCase(a, L, s, h2) ==
+  LET ll == Div(a, s)
+      lu == Div(Add(a, L), s)
+      pl == PowH2(ll, h2)
+      pu == PowH2(lu, h2)
+      dn == Sub(pu, pl)
+  IN [kind |-> "tpl", a |-> a, L |-> L, s |-> s, h2 |-> h2, ll |-> ll, lu |-> lu,
+      wup |-> Div(pu, dn), wlow |-> Div(pl, dn), vf |-> Div(dn, h2)]
+
+InitTpl ==
+  /\ part = "tpl"
+  /\ \E a \in TplLow, L \in TplLen, s \in TplRes, h2 \in TplH2 :
+       /\ PowH2Defined(Div(a, s), h2) /\ PowH2Defined(Div(Add(a, L), s), h2)
+       /\ vc = TplCase(a, L, s, h2)
+  /\ D = None /\ inst = None /\ pc = None /\ abstract = None /\ ev = None
+  /\ pm = None /\ tab = None /\ isc = None
+
+TplSound ==
+  /\ Sub(vc.wup, vc.wlow) = One                      \* the weights of a normalised average
+  /\ Less(Zero, vc.wup) /\ Leq(Zero, vc.wlow)
+  /\ Less(vc.ll, vc.lu) /\ Sub(vc.lu, vc.ll) = Div(vc.L, vc.s)   \* len_scale = integration range
+  /\ (vc.a = Zero => vc.wlow = Zero /\ vc.wup = One /\ vc.lu = Div(vc.L, vc.s))   \* plain identity
+  /\ Less(Zero, vc.vf)
+  /\ (vc.h2 = One => vc.vf = Div(vc.L, vc.s))        \* H = 1/2: variance factor len_scale / rescale
 =============================================================================
